@@ -61,6 +61,10 @@ impl Report {
             self.violations.push(Violation { property: property.into(), case: case.into(), msg: msg.into(), replay: replay_json.into() });
         }
     }
+    /// enough distinct violations collected: engines stop exploring (the run is then not exhaustive)
+    pub fn saturated(&self) -> bool {
+        self.violations.len() >= 12
+    }
     pub fn sample(&mut self, s: String) {
         if self.samples.len() < 8 {
             self.samples.push(s);
